@@ -916,7 +916,33 @@ func c19Malformed(c *ctx, d *Driver, impl *[]string, n int) {
 func c19MalformedFai(c *ctx, d *Driver, impl *[]string, n int) {
 	r := c.res
 	subs := []string{"x", "-", "+", " ", "\t", "\n", "\r", "\r\n", "\"", "0", "9", "99999999999999999999", "_", "\n\n", "1e3", "0x1f"}
-	for k := 0; k < n; k++ {
+	// records at the edges of Record.isValid (ReadFrom's validation): no bases per line, fewer bytes than bases
+	// per line, negative fields, last-line offset at / beyond int64 (Go's truncating division)
+	fixed := []string{
+		"a\t10\t0\t0\t0\n", "a\t0\t0\t0\t0\n", "a\t0\t7\t0\t3\n", "a\t10\t0\t5\t0\n", "a\t10\t0\t5\t4\n", "a\t10\t0\t5\t5\n",
+		"a\t10\t0\t5\t-9\n", "a\t-1\t0\t5\t6\n", "a\t1\t-1\t5\t6\n", "a\t1\t0\t-5\t6\n", "a\t-0\t+3\t5\t6\n",
+		"a\t10\t9223372036854775800\t5\t6\n", "a\t4\t9223372036854775800\t5\t6\n", "a\t4\t9223372036854775805\t5\t6\n",
+		"a\t5\t9223372036854775805\t5\t6\n", "a\t9\t9223372036854775796\t5\t6\n", "a\t10\t9223372036854775796\t5\t6\n",
+		"a\t10\t9223372036854775797\t5\t6\n", "a\t9223372036854775807\t0\t1\t1\n", "a\t9223372036854775807\t1\t1\t1\n",
+		"a\t9223372036854775807\t0\t1\t2\n", "a\t6\t3\t4\t5\nb\t10\t0\t0\t0\n",
+	}
+	for k := 0; k < n+len(fixed); k++ {
+		if k < len(fixed) {
+			text := []byte(fixed[k])
+			var back fai.Index
+			var rerr error
+			o := guard(func() { back, rerr = fai.ReadFrom(bytes.NewReader(text)) })
+			if o.panicked {
+				r.fail("fai.readfrom.panic:"+topRepoFrame(o.stack), o.panicVal, c19Input{Kind: "fai-text", Raw: hexs(text)})
+				continue
+			}
+			line := c19ReadFromStr(back, rerr)
+			r.hist("fai-validation." + strings.SplitN(line, " ", 2)[0])
+			r.eval("mi:"+hexs(text), true)
+			d.add("c19.readfrom %s", hexs(text))
+			*impl = append(*impl, line)
+			continue
+		}
 		f := c19RandomFile(c.rnd, false)
 		data, _ := f.render()
 		idx, err := fai.NewIndex(bytes.NewReader(data))
